@@ -4,6 +4,7 @@ B: real save + pncopen for every flavour x compression over generated files (dty
 masked variables with several fill values, attribute kinds, unlimited dimension).
 """
 import itertools
+import os
 from .common import *   # noqa
 
 import itertools
@@ -92,6 +93,104 @@ class FillConsistent(Contract):
 
 PRESENCE = [p for r in (1, 2, 3) for p in itertools.combinations(('missing_value', 'fill_value', '_FillValue'), r)]
 CONTRACTS = [FillConsistent(p) for p in PRESENCE]
+
+
+def make_plain_pvar(ctx, name):
+    """abstract source variable without any fill attribute and with plain (unmasked) data"""
+    pv = Obj(None, dict(units='1'), tag='pvar:' + name)
+    pv.attrs['dimensions'] = ('t', 'x')
+    pv.attrs['ndim'] = 2
+    pv.attrs['ncattrs'] = native(lambda I, a, k: ['units'])
+    pv.attrs['typecode'] = native(lambda I, a, k: 'f')
+    data = Obj(None, {}, tag='plain-data')
+    data.attrs['dtype'] = Opaque('dtype')
+    pv.attrs['__getitem__'] = native(lambda I, a, k: data)
+    return pv
+
+
+class AddVariablesNoLeak(Contract):
+    """addVariables on a file holding a masked variable with a fill value (arbitrary value, any of the three attribute
+    spellings) and plain variables without one, in EVERY definition order: each variable is created exactly once, the masked
+    one with its fill value, every plain one WITHOUT any fill value -- nothing about one variable leaks into the creation of
+    another -- and the data of every variable are written once."""
+    prop = 'C07'
+    target = PG + '::Pseudo2NetCDF.addVariables'
+    max_paths = 40
+
+    def __init__(self, order, attr, datafirst):
+        self.order, self.attr, self.datafirst = tuple(order), attr, datafirst
+        self.name = 'addVariables[order %s,%s,%s]' % (','.join(order), attr, 'data first' if datafirst else 'define then populate')
+
+    def inputs(self, ctx, I):
+        pvm, self.vals = make_pvar(ctx, (self.attr,))
+        vs = {}
+        for k in self.order:
+            vs[k] = pvm if k == 'masked' else make_plain_pvar(ctx, k)
+        pf = Obj(None, {'variables': vs}, tag='pfile')
+        nf = make_nfile(ctx)
+        s = self_obj(I, PG, 'Pseudo2NetCDF', dict(create_variable_kwds={}, datafirst=self.datafirst, verbose=0))
+        self.s = s
+        return dict(self=s, pfile=pf, nfile=nf)
+
+    def ensures(self, inp, res, I):
+        cw = I.ctx.ghost.get('created_with', [])
+        if len(cw) != len(self.order):
+            return [('every variable created exactly once', False)]
+        out = [('every variable created exactly once', list(inp['nfile'].attrs['variables'].keys()) == list(self.order))]
+        for k, c in zip(self.order, cw):
+            if k == 'masked':
+                out.append(('the masked variable is created with its fill value', (not isinstance(c, str)) and eq(c, self.vals[self.attr])))
+            else:
+                out.append(('plain variable %s is created without a fill value' % k, isinstance(c, str) and c == 'no-fill-value'))
+        out.append(('the shared creation keywords are left as they were', self.s.attrs['create_variable_kwds'] == {}))
+        out.append(('data of every variable written once', len(I.ctx.ghost.get('written', [])) == len(self.order)))
+        return out
+
+
+    def concretize(self, model, inp):
+        from pyvc.verify import model_value
+        return dict(order=list(self.order), attr=self.attr, fill=model_value(model, self.vals[self.attr]))
+
+    def concretize_without_model(self, inp):
+        return dict(order=list(self.order), attr=self.attr, fill=-999.0)
+
+    def replay(self, c):
+        """a real file with the variables in the contract order, saved and re-opened with netCDF4"""
+        import numpy as np
+        import tempfile, shutil, netCDF4
+        P = import_real()
+        fill = float(fl(c.get('fill') if c.get('fill') is not None else -999.0))
+        if not np.isfinite(fill) or abs(fill) > 1e30:
+            fill = -999.0
+        f = P.PseudoNetCDFFile()
+        f.createDimension('t', 2)
+        f.createDimension('x', 3)
+        for k in c['order']:
+            if k == 'masked':
+                v = f.createVariable(k, 'f', ('t', 'x'), values=np.ma.masked_array(np.arange(6.).reshape(2, 3) + 1, mask=[[0, 1, 0], [0, 0, 1]]))
+                setattr(v, c['attr'], np.float32(fill))
+            else:
+                f.createVariable(k, 'f', ('t', 'x'), values=np.array([[fill, 1, 2], [3, fill, 5]], 'f'), units='1')
+        d = tempfile.mkdtemp(prefix='verif_c07_')
+        try:
+            p_ = os.path.join(d, 'o.nc')
+            f.save(p_, format='NETCDF4_CLASSIC', verbose=0).close()
+            ds = netCDF4.Dataset(p_)
+            bad = []
+            for k in c['order']:
+                has = '_FillValue' in ds.variables[k].ncattrs()
+                if (k == 'masked') != has:
+                    bad.append('%s: _FillValue %s' % (k, 'present' if has else 'absent'))
+                if k != 'masked' and np.ma.getmaskarray(ds.variables[k][...]).any():
+                    bad.append('%s: cells equal to the other variable fill value came back masked' % k)
+            ds.close()
+            return (not bad), dict(order=c['order'], fill=fill, failed=bad)
+        finally:
+            shutil.rmtree(d, ignore_errors=True)
+
+
+CONTRACTS += [AddVariablesNoLeak(o, a, d) for o in (('masked', 'p1'), ('p1', 'masked', 'p2'), ('masked', 'p1', 'p2'))
+              for a, d in (('fill_value', False), ('missing_value', True))]
 
 
 
@@ -248,9 +347,10 @@ def bounded_replay(p):
 
 META = dict(
     level='other',
-    technique='fill-value consistency lemma proved by pyvc over all presence patterns of the three fill attributes; libnetcdf round trip by bounded run-time contract',
+    technique='fill-value consistency lemma (all presence patterns of the three fill attributes) and the no-leak property of addVariables proved by pyvc against an abstract netCDF4 target; libnetcdf round trip by bounded run-time contract',
     text='Proved: for a masked source variable with any non-empty subset of missing_value / fill_value / _FillValue and arbitrary values, Pseudo2NetCDF.addVariable creates the netCDF variable '
-         'with the documented precedence and addVariableData fills masked cells with exactly that value. Bounded: save followed by open compared field by field for every flavour/compression.',
+         'with the documented precedence and addVariableData fills masked cells with exactly that value; addVariables on a masked variable plus plain variables in every definition order '
+         '(define-then-populate and data-first): each variable is created once, the masked one with its fill value, every plain one WITHOUT a fill value, the shared creation keywords are left untouched. Bounded: save followed by open compared field by field for every flavour/compression.',
     note='netCDF4 target modelled by its attribute contract (createVariable(fill_value=X) => _FillValue = X); libnetcdf/HDF5 persistence is external and bounded only.',
     assumptions=['libnetcdf/HDF5 persistence (external)'],
     explanation='mixed: proof obligations for the fill-value lemma + bounded exploration of the real save/open round trip')
